@@ -41,6 +41,7 @@ static void checkProgram(xrun::Runner &R, const std::string &src, const std::str
       st.add("executions"); st.add("background_differential_runs");
       std::string k2, w2 = xrun::compare(c.oc, r2, k2);
       if (!w2.empty()) viol("depends-on-unwritten-memory:" + k2, "with memory above the image pre-set to A5A5A5A5: " + w2, c.input);
+      if (anyFile) { std::string again[8]; R.collectFiles(again); for (int n = 0; n < 8; n++) if (again[n] != c.oc.files[n]) { viol("file-stream", "second run: simout" + std::to_string(n) + " differs", c.input); break; } }
       first = false;
     }
     st.outcome(mix(fnv(c.oc.out), (uint32_t)c.oc.exitValue));
